@@ -1,8 +1,12 @@
 (* Correspondence check for C03: a history run on a real volume (Store API, needle version 3,
    in-memory needle map), the files closed and copied, then for every crash point of the case
    (bytes kept of the .dat, bytes kept of the .idx) the truncated copies mounted again with the
-   real Store.MountVolume and observed: load outcome, read-only flag, file sizes after the load,
-   a read of every key, a fresh write and its read-back, file sizes afterwards. *)
+   real Store.MountVolume and observed in three stages: (1) load outcome, read-only flag, file
+   sizes after the load, a read of every key; (2) further operations on the reopened volume --
+   overwrites, rewrites of deleted keys, deletes, refused and repeated writes on the keys of the
+   history and a write of a fresh key -- with their answers, a read of every key and the file sizes
+   afterwards; (3) a second stop (the .idx short of its last 0..25 bytes) and a second mount with
+   the same observations. *)
 From Coq Require Import List NArith ZArith Bool.
 From Coq Require Export Uint63.   (* exported: cases.v uses %uint63 literals *)
 From SW Require Export base.Verdict model.Needle model.VolumeCrash.
@@ -21,13 +25,13 @@ Fixpoint unchunk (fuel : nat) (x : Uint63.int) (acc : list N) : list N :=
 Definition unpack (cs : list Uint63.int) : list N := flat_map (fun c => unchunk 8 c []) cs.
 
 (* one crash point and what the implementation did with it *)
-Record cut := { c_dcut : N; c_icut : N; c_obs : obs }.
+Record cut := { c_dcut : N; c_icut : N; c_drop2 : N; c_obs : obs }.
 
 Record case := {
   c_ops : list op;                  (* Write needles carry Checksum = NewCRC(Data) and, when the
                                        operation appended a record, the AppendAtNs found in the file *)
-  c_keys : list N;                  (* keys read after every reopen *)
-  c_fresh : needle;                 (* the fresh write (a key outside the history) *)
+  c_keys : list N;                  (* keys read after every reopen (the fresh key among them) *)
+  c_post : list op;                 (* the operations on every reopened volume *)
   c_cuts : list cut;
   i_dat : list N;                   (* the .dat file after the history *)
   i_idx : list (N * N * Z);         (* the .idx file after the history: key, offset/8, size *)
@@ -45,7 +49,7 @@ Definition op_needles (ops : list op) : list needle :=
   flat_map (fun o => match o with Write n => [n] | Delete _ _ _ => [] end) ops.
 
 Definition crc_of (c : case) : list N -> N :=
-  lookup (map (fun n => (data n, checksum n)) (c_fresh c :: op_needles (c_ops c))) 0.
+  lookup (map (fun n => (data n, checksum n)) (op_needles (c_post c ++ c_ops c))) 0.
 
 (* ---------- comparison helpers ---------- *)
 Fixpoint all2 {A B} (f : A -> B -> bool) (l1 : list A) (l2 : list B) : bool :=
@@ -58,20 +62,28 @@ Fixpoint all2 {A B} (f : A -> B -> bool) (l1 : list A) (l2 : list B) : bool :=
 Definition proj_eqb (a b : N * N * list N) : bool :=
   let '(a1, a2, a3) := a in let '(b1, b2, b3) := b in (a1 =? b1) && (a2 =? b2) && bytes_eqb a3 b3.
 
+Definition ans_eqb (a b : N * Z) : bool := (fst a =? fst b) && (snd a =? snd b)%Z.
+
 Definition obs_eqb (a b : obs) : bool :=
   (o_load a =? o_load b) && Bool.eqb (o_readonly a) (o_readonly b)
   && (o_dat_len a =? o_dat_len b) && (o_idx_len a =? o_idx_len b)
   && all2 proj_eqb (o_reads a) (o_reads b)
-  && (o_write a =? o_write b) && proj_eqb (o_fresh a) (o_fresh b)
-  && (o_dat_len2 a =? o_dat_len2 b) && (o_idx_len2 a =? o_idx_len2 b).
+  && all2 ans_eqb (o_post a) (o_post b)
+  && all2 proj_eqb (o_reads2 a) (o_reads2 b)
+  && (o_dat_len2 a =? o_dat_len2 b) && (o_idx_len2 a =? o_idx_len2 b)
+  && (o_load3 a =? o_load3 b) && Bool.eqb (o_readonly3 a) (o_readonly3 b)
+  && all2 proj_eqb (o_reads3 a) (o_reads3 b)
+  && (o_dat_len3 a =? o_dat_len3 b) && (o_idx_len3 a =? o_idx_len3 b).
 
 Definition entry_eqb (e : entry) (t : N * N * Z) : bool :=
   let '(k, o, s) := t in (e_key e =? k) && (e_off e =? o) && (e_size e =? s)%Z.
 
 (* ---------- the property's oracle ---------- *)
-(* the specification [s_run] of model/VolumeCrash.v (an association list key -> cookie, last
-   stored needle or deleted, number of the record that made it so), evaluated on the operations;
-   it does not look at files or needle maps *)
+(* the specification [s_step] / [s_read] / [s_res] of model/VolumeCrash.v (an association list
+   key -> cookie, last stored needle or deleted), evaluated on the operations; it does not look at
+   files or needle maps.  Which operations reached the files at a stop is read off the
+   IMPLEMENTATION's own answers (did the .dat grow / what did the operation answer), and those
+   answers are checked against the specification.  [dirty] = the keys exempt under finding 0. *)
 
 (* was (cookie, data) ever written for key k? *)
 Definition written (ops : list op) (k ck : N) (d : list N) : bool :=
@@ -94,58 +106,115 @@ Definition impl_admissible (c : case) (dcut icut : N) : bool :=
   (icut <=? 16 * len (i_idx c)) && (dcut <=? len (i_dat c))
   && (impl_end c ie <=? dcut).
 
-(* the safety half, for every crash point: whatever is served was written for that key *)
-Definition p_safe (c : case) (o : obs) : bool :=
-  all2 (fun k r => let '(cls, ck, d) := r in if cls =? 0 then written (c_ops c) k ck d else true)
-       (c_keys c) (o_reads o)
-  || negb (o_load o =? 0).
-
-(* the full property at an admissible crash point with [ie] surviving index entries *)
-Definition p_key (c : case) (m : smap) (ie : N) (k : N) (r : N * N * list N) : bool :=
-  let '(cls, ck, d) := r in
-  match s_get m k with
-  | None => (cls =? 1) || (cls =? 2)                       (* never written: absent *)
-  | Some v =>
-      if s_rec v <=? ie then
-        (* its last operation reached both files: exactly that *)
-        match s_live v with
-        | Some n0 => (cls =? 0) && (ck =? cookie n0) && bytes_eqb d (data n0)
-        | None => (cls =? 1) || (cls =? 2)
-        end
-      else
-        (* otherwise: absent, or something that was written for this key *)
-        (cls =? 1) || (cls =? 2) || ((cls =? 0) && written (c_ops c) k ck d)
+(* the longest prefix of the operations that appended at most [lim] records *)
+Fixpoint prefix_by (ops : list op) (fl : list bool) (lim : N) : list op :=
+  match ops, fl with
+  | o :: ops', b :: fl' =>
+      if b then (match lim with 0 => [] | _ => o :: prefix_by ops' fl' (lim - 1) end)
+      else o :: prefix_by ops' fl' lim
+  | _, _ => []
   end.
 
-Definition p_full (c : case) (m : smap) (ct : cut) : bool :=
+Definition clean (dirty : N -> bool) (ops : list op) : list op :=
+  filter (fun o => negb (dirty (op_key o))) ops.
+
+Definition s_after (st : smap * N) (ops : list op) : smap * N := fold_left s_step ops st.
+
+(* specification and implementation agree, operation by operation, on whether a record was appended *)
+Fixpoint flags_ok (dirty : N -> bool) (st : smap * N) (ops : list op) (fl : list bool) : bool :=
+  match ops, fl with
+  | [], [] => true
+  | o :: ops', b :: fl' =>
+      if dirty (op_key o) then flags_ok dirty st ops' fl'
+      else let st' := s_step st o in Bool.eqb b (snd st <? snd st') && flags_ok dirty st' ops' fl'
+  | _, _ => false
+  end.
+
+(* ... and on the answer to every further operation *)
+Fixpoint answers_ok (dirty : N -> bool) (st : smap * N) (ops : list op) (ans : list (N * Z)) : bool :=
+  match ops, ans with
+  | [], [] => true
+  | o :: ops', a :: ans' =>
+      if dirty (op_key o) then answers_ok dirty st ops' ans'
+      else ans_eqb (s_res (fst st) o) a && answers_ok dirty (s_step st o) ops' ans'
+  | _, _ => false
+  end.
+
+(* did the operation append a record, by its answer? *)
+Definition ans_appended (o : op) (a : N * Z) : bool :=
+  match o with Write _ => fst a =? 0 | Delete _ _ _ => (fst a =? 0) && (0 <? snd a)%Z end.
+
+(* what a read must answer *)
+Definition expected (m : smap) (k : N) : N * N * list N :=
+  match s_get m k with
+  | None => (1, 0, [])
+  | Some v => match s_live v with Some n0 => (0, cookie n0, data n0) | None => (2, 0, []) end
+  end.
+
+Definition reads_ok (dirty : N -> bool) (m : smap) (keys : list N) (rs : list (N * N * list N)) : bool :=
+  all2 (fun k r => dirty k || proj_eqb (expected m k) r) keys rs.
+
+(* the safety half, for every crash point and every stage: whatever is served was written for that key *)
+Definition served_ok (c : case) (rs : list (N * N * list N)) : bool :=
+  match rs with
+  | [] => true
+  | _ => all2 (fun k r => let '(cls, ck, d) := r in if cls =? 0 then written (c_ops c ++ c_post c) k ck d else true)
+              (c_keys c) rs
+  end.
+Definition p_safe (c : case) (o : obs) : bool :=
+  served_ok c (o_reads o) && served_ok c (o_reads2 o) && served_ok c (o_reads3 o).
+
+(* the full property at an admissible crash point *)
+Definition p_full (dirty : N -> bool) (c : case) (ct : cut) : bool :=
   let o := c_obs ct in
-  (o_load o =? 0) && negb (o_readonly o)
-  && all2 (p_key c m (c_icut ct / 16)) (c_keys c) (o_reads o)
-  && (o_write o =? 0)
-  && proj_eqb (o_fresh o) (0, cookie (c_fresh c), data (c_fresh c)).
+  let ie := c_icut ct / 16 in
+  let h1 := prefix_by (c_ops c) (i_appended c) ie in
+  let st1 := s_after ([], 0) (clean dirty h1) in
+  let st2 := s_after st1 (clean dirty (c_post c)) in
+  (* the second stop: [ie3] index entries in all *)
+  let ie3 := (o_idx_len2 o - c_drop2 ct) / 16 in
+  let h3 := prefix_by (c_ops c ++ c_post c)
+                      (firstn (length h1) (i_appended c) ++ repeat false (length (c_ops c) - length h1)
+                       ++ map (fun p => ans_appended (fst p) (snd p)) (combine (c_post c) (o_post o))) ie3 in
+  (* the operations of the history behind h1 never happened for the reopened volume *)
+  let h3' := firstn (length h1) h3 ++ skipn (length (c_ops c)) h3 in
+  let st3 := s_after ([], 0) (clean dirty h3') in
+  (* (1) up, writable, every key as after h1 *)
+  (o_load o =? 0) && negb (o_readonly o) && (o_idx_len o =? 16 * ie)
+  && reads_ok dirty (fst st1) (c_keys c) (o_reads o)
+  (* (2) serves further operations as the volume that ran h1 and never stopped *)
+  && answers_ok dirty st1 (c_post c) (o_post o)
+  && reads_ok dirty (fst st2) (c_keys c) (o_reads2 o)
+  (* (3) and survives the next stop the same way *)
+  && (o_load3 o =? 0) && negb (o_readonly3 o)
+  && reads_ok dirty (fst st3) (c_keys c) (o_reads3 o).
 
-Definition p_cut (c : case) (m : smap) (ct : cut) : bool :=
+Definition p_cut (dirty : N -> bool) (c : case) (ct : cut) : bool :=
   p_safe c (c_obs ct)
-  && (if impl_admissible c (c_dcut ct) (c_icut ct) then p_full c m ct else true).
+  && (if impl_admissible c (c_dcut ct) (c_icut ct) then p_full dirty c ct else true).
 
-(* no known finding is left for this property (the two that were found are repaired in the
-   tree; their crash points are cases 0 and 1 of every run) *)
+Definition p_case (dirty : N -> bool) (c : case) : bool :=
+  flags_ok dirty ([], 0) (c_ops c) (i_appended c)
+  && (len (filter (fun b => b) (i_appended c)) =? len (i_idx c))
+  && forallb (p_cut dirty c) (c_cuts c).
+
+(* finding 0 (c03-empty-blob-gone-after-restart): the keys under which the case writes an empty payload *)
+Definition dirty_of (c : case) (k : N) : bool := key_has_empty_write (c_ops c ++ c_post c) k.
 
 Definition check (c : case) : outcome :=
   let crc := crc_of c in
   let st := p_run (c_ops c) in
-  let '(m, nrec) := s_run (c_ops c) in
-  let failing := filter (fun ct => negb (p_cut c m ct)) (c_cuts c) in
+  let strict := p_case (fun _ => false) c in
   {| o_corr :=
        bytes_eqb (p_dat st) (i_dat c)
        && all2 entry_eqb (p_idx st) (i_idx c)
-       && forallb (fun ct => obs_eqb (observe crc (crash st (c_dcut ct) (c_icut ct)) (c_keys c) (c_fresh c)) (c_obs ct))
+       && forallb (fun ct => obs_eqb (observe crc (crash st (c_dcut ct) (c_icut ct)) (c_keys c) (c_post c) (c_drop2 ct)) (c_obs ct))
                   (c_cuts c);
-     o_prop :=
-       (* the specification and the implementation agree on which operations appended *)
-       (nrec =? len (i_idx c)) && (len (filter (fun b => b) (i_appended c)) =? len (i_idx c))
-       && match failing with [] => true | _ => false end;
-     o_trig := None;
+     o_prop := strict;
+     (* inside the trigger set: some key has an empty write, and every OTHER key of the case
+        satisfies the property in full *)
+     o_trig := if strict then None
+               else if has_empty_write (c_ops c ++ c_post c) && p_case (dirty_of c) c then Some 0 else None;
      o_nontrivial :=
        existsb (fun ct => (o_load (c_obs ct) =? 0)
                           && existsb (fun r => let '(cls, _, _) := r in cls =? 0) (o_reads (c_obs ct)))
